@@ -123,6 +123,13 @@ func (c *Ctx) findDispatcher(key string, roots ...*ssa.Function) *Dispatcher {
 			if cal == nil || !c.inModule(cal) {
 				continue
 			}
+			// a handler is a sibling of the dispatcher: a method of the same receiver type (a plain helper that takes
+			// the node, such as the dotted-name collector, is part of an arm written out in the dispatcher)
+			if rt := recvType(best.Fn); rt != nil {
+				if ht := recvType(cal); ht == nil || typeName(ht) != typeName(rt) {
+					continue
+				}
+			}
 			uses := false
 			for _, arg := range call.Call.Args {
 				if arg == a.Val {
